@@ -94,7 +94,8 @@ pub trait AggValidFinal<T: IsNone>: Vec1View<T> {
             let corr: f64 = self
                 .titer()
                 .vcorr_pearson(self.titer().vshift(life as i32, None), min_periods);
-            if corr < 0.5 {
+            // an undefined correlation (too few pairs) is not above 0.5, as in the doubling phase
+            if corr < 0.5 || corr.is_nan() {
                 (last_n, n) = (last_n, life);
             } else if corr > 0.5 {
                 // the half life lies above `life`: keep the upper end of the bracket
